@@ -826,21 +826,25 @@ int main(int argc, char** argv)
             }
         }
     // two hosts through one client (limit 1 each): one host's connection is taken by a request that is never answered and
-    // has a request waiting behind it; the other host's requests must go on being handed over whenever its connection is free
+    // has a request waiting behind it; the other host's requests must go on being handed over whenever its connection is
+    // free. The client keeps one queue per host, created when a request first has to wait, and scans them in table order:
+    // both creation orders are covered (saturated host's queue created first: 5 requests, one deviation; created last: 6
+    // requests, two deviations - one request of the other host has to wait before, one after).
     for (int threads : { 1, 2 })
-        for (int sat = 0; sat < 2; ++sat) // which of the two hosts is the saturated one (the hosts' order in the client's tables is arbitrary)
-            for (int firstBusy = 0; firstBusy < 2; ++firstBusy)
+        for (int sat = 0; sat < 2; ++sat) // which of the two authorities is the saturated one
+            for (int lateSat = 0; lateSat < 2; ++lateSat)
             {
-                if (!thorough && threads == 2 && firstBusy)
+                if (!thorough && threads == 2)
                     continue;
-                Scenario s { threads, 1, 5, {}, {}, maxD };
-                // issue order: either the saturated host's two requests first, or the other host's first
-                int order[2][5] = { { 1, 1, 0, 0, 0 }, { 0, 0, 1, 1, 0 } }; // 1 = goes to the saturated host
-                for (int i = 0; i < 5; ++i)
+                static const int order5[] = { 1, 1, 0, 0, 0 }, order6[] = { 0, 0, 1, 1, 0, 0 }; // 1 = goes to the saturated host
+                const int* order = lateSat ? order6 : order5;
+                int n            = lateSat ? 6 : 5;
+                Scenario s { threads, 1, n, {}, {}, lateSat ? std::max(maxD, 2) : maxD };
+                for (int i = 0; i < n; ++i)
                 {
-                    bool toSat = order[firstBusy][i] == 1;
+                    bool toSat = order[i] == 1;
                     s.host.push_back(toSat ? sat : 1 - sat);
-                    bool firstOfSat = toSat && (i == 0 || order[firstBusy][i - 1] != 1);
+                    bool firstOfSat = toSat && (i == 0 || order[i - 1] != 1);
                     s.beh.push_back(firstOfSat ? B_NEVER : B_WHOLE);
                     s.timeoutMs.push_back(0);
                 }
